@@ -908,6 +908,7 @@ func init() {
 		truncatedUnaryReplies(o)
 		unencodableResponses(o)
 		emptyStreamMessages(o)
+		lostTrailerThenNextCall(o)
 		unaryRecvLimit(o)
 		httpClientSchedules(o, r, n, "HLts")
 		ltsCases(o, r, profile{name: "status", rounds: [2]int{5, 14}, cancel: 10, handlerEnd: 60, headers: 20, kinds: []string{"BD", "SS", "CS"}, returnCodes: []int64{0, 5, 13, -1, 2, 14}}, n)
@@ -1253,6 +1254,11 @@ func nilAndSkewedSingleResponses(o *hx.Out) {
 			ss.SendMsg(&hx.Msg{Count: 1})
 			return status.Error(codes.NotFound, "after the response")
 		}, false},
+		{"CS handler sends its response and then returns the bare io.EOF (an error like any other)", "CS", hx.StreamDescOf("CS"), func(ss grpc.ServerStream) error {
+			drain(ss)
+			ss.SendMsg(&hx.Msg{Count: 1})
+			return io.EOF
+		}, false},
 		{"called as single-response, registered as bidi: exactly one response", "BD", single, func(ss grpc.ServerStream) error {
 			drain(ss)
 			ss.SendMsg(&hx.Msg{Count: 1})
@@ -1261,7 +1267,19 @@ func nilAndSkewedSingleResponses(o *hx.Out) {
 	} {
 		c := c
 		svc := &hx.Svc{Stream: func(kind string, ss grpc.ServerStream) error { return c.handler(ss) }}
-		for _, t := range bothTransports(svc) {
+		passOn := func(srv interface{}, ss grpc.ServerStream, info *grpc.StreamServerInfo, h grpc.StreamHandler) error {
+			return h(srv, ss)
+		}
+		ipc2 := (&inprocgrpc.Channel{}).WithServerStreamInterceptor(passOn)
+		ipc2.RegisterService(hx.Desc(hx.SvcName), svc)
+		hs2 := httpgrpc.NewServer(httpgrpc.WithServerStreamInterceptor(passOn))
+		hs2.RegisterService(hx.Desc(hx.SvcName), svc)
+		ts2 := httptest.NewServer(hs2)
+		u2, _ := url.Parse(ts2.URL)
+		ts := append(bothTransports(svc),
+			transportT{"inprocgrpc with a pass-through server stream interceptor", ipc2, func() {}},
+			transportT{"httpgrpc with a pass-through server stream interceptor", &httpgrpc.Channel{Transport: &http.Transport{}, BaseURL: u2}, ts2.Close})
+		for _, t := range ts {
 			ctx, cancel := context.WithTimeout(context.Background(), 3*time.Second)
 			cs, err := t.ch.NewStream(ctx, c.desc, "/verif.Svc/"+c.method)
 			out := &hx.Msg{}
@@ -1283,3 +1301,76 @@ func nilAndSkewedSingleResponses(o *hx.Out) {
 		}
 	}
 }
+
+// lostTrailerThenNextCall: a streaming call whose peer is gone (every write of the reply fails) is followed by
+// healthy calls on the same handler: each of those ends with ITS handler's status, nothing of the lost call
+func lostTrailerThenNextCall(o *hx.Out) {
+	prev := runtime.GOMAXPROCS(1) // (one processor: whatever per-processor state the lost call left is met by the next)
+	defer runtime.GOMAXPROCS(prev)
+	var ret error
+	svc := &hx.Svc{Stream: func(kind string, ss grpc.ServerStream) error {
+		for ss.RecvMsg(&hx.Msg{}) == nil {
+		}
+		return ret
+	}}
+	desc := hx.Desc(hx.SvcName)
+	var sd *grpc.StreamDesc
+	for i := range desc.Streams {
+		if desc.Streams[i].StreamName == "BD" {
+			sd = &desc.Streams[i]
+		}
+	}
+	h := httpgrpc.HandleStream(svc, hx.SvcName, sd, nil)
+	mkReq := func() *http.Request {
+		rq := httptest.NewRequest("POST", "/verif.Svc/BD", bytes.NewReader(nil))
+		rq.Header.Set("Content-Type", httpgrpc.StreamRpcContentType_V1)
+		return rq
+	}
+	id := 0
+	for _, pair := range [][2]codes.Code{{codes.OK, codes.PermissionDenied}, {codes.NotFound, codes.OK}, {codes.Aborted, codes.DataLoss}} {
+		ret = codeErr2(int64(pair[0]))
+		h(&deadWriter{h: http.Header{}}, mkReq()) // the lost call: its trailer cannot be written
+		for k := 0; k < 3; k++ {
+			ret = codeErr2(int64(pair[1]))
+			rec := httptest.NewRecorder()
+			h(rec, mkReq())
+			// walk the reply: the first trailer frame is what the client takes for the outcome
+			b := rec.Body.Bytes()
+			first, frames := int64(-1), 0
+			for pos := 0; pos+4 <= len(b); {
+				sz := int32(binary.BigEndian.Uint32(b[pos:]))
+				pos += 4
+				if sz >= 0 {
+					pos += int(sz)
+					continue
+				}
+				end := pos + int(-sz)
+				if end > len(b) {
+					break
+				}
+				var tr httpgrpc.HttpTrailer
+				if proto.Unmarshal(b[pos:end], &tr) == nil && frames == 0 {
+					first = int64(tr.Code)
+				}
+				frames++
+				pos = end
+			}
+			ok := frames == 1 && first == int64(pair[1])
+			id++
+			d := map[string]interface{}{"transport": "httpgrpc server (HandleStream)", "lost_call_returned": pair[0].String(), "this_call_returned": pair[1].String(), "calls_after_the_lost_one": k + 1,
+				"trailer_frames_in_reply": frames, "first_trailer_code": first}
+			if !ok {
+				o.Violate("a streaming call's reply did not end with exactly its own handler's status after an earlier call's reply could not be written", d, first, int64(pair[1]))
+			}
+			checked(o, "lost_trailer_then_next_call", id, ok, d)
+		}
+	}
+}
+
+// deadWriter is a ResponseWriter whose peer is gone: every write fails
+type deadWriter struct{ h http.Header }
+
+func (d *deadWriter) Header() http.Header       { return d.h }
+func (d *deadWriter) WriteHeader(int)           {}
+func (d *deadWriter) Write([]byte) (int, error) { return 0, io.ErrClosedPipe }
+func (d *deadWriter) Flush()                    {}
